@@ -12,8 +12,8 @@ FILES = {
     "C04": [("C04", ["Scc.Core2AxCut.Model", "Scc.Core2AxCut.FsTyping", "Scc.AxCut.SemNamed", "Scc.AxCut.TypingNamed"]), ("C04Sem", [])],
     "C05": [("C05", ["Scc.AxCut.Linearize", "Scc.AxCut.SemPos", "Scc.AxCut.LinTyping"])],
     "C06": [("C06Generic", ["Scc.Backend.Generic", "Scc.Backend.Mock", "Scc.Backend.AbstractMachine"]), ("C06X86", ["Scc.X86.Backend", "Scc.X86.Machine"]), ("C06X86Heap", []), ("C06X86Full", []), ("C09Refine", [])],
-    "C07": [("C06Generic", ["Scc.Backend.Generic"]), ("C07A64", ["Scc.A64.Backend", "Scc.A64.Machine"]), ("C07A64Int", []), ("C07A64Heap", [])],
-    "C08": [("C06Generic", ["Scc.Backend.Generic"]), ("C08RV", ["Scc.RV.Backend", "Scc.RV.Machine"]), ("C08RVInt", []), ("C08RVHeap", [])],
+    "C07": [("C06Generic", ["Scc.Backend.Generic"]), ("C07A64", ["Scc.A64.Backend", "Scc.A64.Machine"]), ("C07A64Int", []), ("C07A64Heap", []), ("C07A64Full", [])],
+    "C08": [("C06Generic", ["Scc.Backend.Generic"]), ("C08RV", ["Scc.RV.Backend", "Scc.RV.Machine"]), ("C08RVInt", []), ("C08RVHeap", []), ("C08RVClo", [])],
     "C09": [("C09", ["Scc.Heap.Model", "Scc.Heap.Inv"]), ("C09Refine", []), ("C09X86", [])],
     "C10": [("C10", ["Scc.Heap.Model"]), ("C10X86", [])],
     "C13": [("C13X86", ["Scc.X86.Machine"]), ("C13A64", ["Scc.A64.Machine"]), ("C13Loader", []), ("C13X86Data", [])],
